@@ -715,7 +715,7 @@ def check_property(pid, tier, seed):
         rdir = os.path.join(VERIF, "evidence", "replay")
         os.makedirs(rdir, exist_ok=True)
         rp = os.path.join(rdir, "%s.json" % pid)
-        cex = vsearch.find_counterexample(pid, violations, seed)
+        cex = vsearch.find_counterexample(pid, violations, seed, tier)
         rec = {"property": pid, "violations": violations, "counterexample": cex, "repo_head": git_head(), "how_to_replay": "./check replay %s" % rp}
         with open(rp, "w") as fh:
             json.dump(rec, fh, indent=1)
